@@ -40,6 +40,8 @@ CLAIMED = {
          'Decides in-bounds and termination of the parser: every scan gets exactly the remaining length, the window inside find() stays in the haystack, needle lengths match their literals, every search result is null-checked before use with a throwing edge, and the header loop strictly advances. Round-tripping of well-formed requests is not decided.', '4/C15'),
  'C16': ('static: call-graph reachability from stop() to the real close, exactly-once path rule for the response write, re-entry rule after keep-alive responses, linear-form agreement of content-length and generated body',
          'Decides that stop() really stops listening (all three test servers), that one response is started per parsed request except on the stall path, that the buffer is re-scanned after a keep-alive response (pipelining), that content-length and generated length agree, and that parse failures close only the connection. Response contents and header semantics are not decided.', '4/C16'),
+ 'C19': ('static: record layouts from clang, structural sum of what is written per record against the recorded length in linear normal form, accepted-idiom check of the timestamp split, caller table of forward_packet with packet-type provenance, must-precede rules on the sequence counter',
+         'Decides the writer side of the capture format: header struct layouts, file header fields, recorded length == bytes written == IP total length, timestamp split without narrowing and identical in both loggers, every TCP payload/EOF transmission and UDP wire send logged once before it leaves with true addresses, sequence stamped before the counter advances from zero. File-equals-sends is not decided.', '4/C19'),
 }
 
 NOT_YET = {}
